@@ -722,7 +722,7 @@ class World:
             return None
         except Exception as exc:  # pylint: disable=broad-except
             return self._crash(b, exc, "backend_probe")
-        return self.ctx.fail("backend.invalid_mode_accepted.%s" % b, "backend.%s on the %s mode index %d was carried out instead of refused (active modes %s)" % (name, what, d, self.ran_active))
+        return self.ctx.fail("backend.%s.%s" % ("negative_index_accepted" if d < 0 else "invalid_mode_accepted", b), "backend.%s on the %s mode index %d was carried out instead of refused (active modes %s)" % (name, what, d, self.ran_active))
 
     def _bosonic_new_probe(self, seg):
         from strawberryfields import ops
